@@ -20,6 +20,9 @@ Names    == {"Host", "X-Custom", "content-type", "ACCEPT"}
 HeaderLists == {<<>>} \cup {<<H(n, v)>> : n \in Names, v \in Values}
                \cup {<<H("Host", "h"), H(n, v), H("Z-Last", "z")>> : n \in {"X-Custom"}, v \in Values}
                \cup {<<H("A", v1), H("A", v2)>> : v1 \in {"1", "a: b"}, v2 \in {"2", ""}}
+               \* the same name in several spellings: lookup must not depend on the spelling asked for
+               \cup {<<H("x-id", "first"), H("X-Id", "second")>>, <<H("X-ID", "1"), H("x-id", "2"), H("X-Id", "3")>>,
+                     <<H("Host", "h"), H("ACCEPT", "a"), H("Accept", "b"), H("accept", "c")>>}
                \cup {[i \in 1..50 |-> H("X-H", "v: " \o ToString(i))]}
 Bodies   == {<<>>, <<97, 98, 99>>, <<13, 10, 97>>, <<97, 13, 10, 13, 10, 98>>, <<0, 1, 2>>, <<13, 10, 13, 10>>,
              <<10>>, <<58, 32, 58>>, [i \in 1..256 |-> i - 1]}
@@ -57,6 +60,12 @@ C15Values ==
            parts |-> [i \in 1..n |-> Part("text/html", i, i + 3, 99, <<96 + i, 13, 10, 96 + i>>)]] : sr \in {"assoc", "method"}, n \in 3..6}
 AllStatuses == [kind |-> "resp_all_statuses"]
 C15Corrupt == {[kind |-> "resp_corrupt", cls |-> c] : c \in {"unknown_status", "phrase_mismatch", "no_opening_boundary", "no_closing_boundary", "part_without_blank_line"}}
+\* single-field corruptions of the status line, for every registered status (idx = position in the library's table) in a
+\* single-part and a multipart document: rel says how the field relates to the registered one (Codec_Http!StatusLineViolations)
+StatusLineRels == {"exact", "other_phrase", "truncated_char", "truncated_word", "extended_char", "extended_word", "empty_phrase",
+                   "unregistered_code", "case_changed"}
+C15StatusLines == {[kind |-> "resp_status_line", idx |-> i, rel |-> rl, frame |-> fr] :
+                     i \in 1..60, rl \in StatusLineRels, fr \in {"single", "multi"}}
 
 \* ---------------------------------------------------------------- C16
 MPart(hs, b) == [headers |-> hs, body |-> b]
@@ -71,7 +80,14 @@ C16Values ==
     \cup {[kind |-> "multipart", boundary |-> "--b", parts |-> [i \in 1..n |-> MPart(<<CD("f"), H("X-I", ToString(i))>>, <<96 + i>>)]] : n \in 3..8}
 C16Corrupt == {[kind |-> "multipart_corrupt", cls |-> c] : c \in {"no_opening_boundary", "no_closing_boundary", "part_without_headers"}}
 C16Extract == {[kind |-> "boundary_param", ct |-> "multipart/form-data; boundary=" \o b, boundary |-> b] :
-                 b \in {"----WebKitFormBoundary7MA4YWxkTrZu0gW", "b", "a-b", "------------------------d74496d66958873e"}}
+                 b \in {"----WebKitFormBoundary7MA4YWxkTrZu0gW", "b", "a-b", "------------------------d74496d66958873e",
+                        \* every punctuation character RFC 2046 allows in a boundary (bcharsnospace), as mail and HTTP clients use them
+                        "----=_Part_0_123.456", "----=_NextPart_000_0001", "a=b", "=", "x'()+_,-./:=?y", "0123456789012345678901234567890123456789012345678901234567890123456789"}}
+              \cup {[kind |-> "boundary_param", ct |-> ct, boundary |-> b] :
+                     \* (quoted values and a mixed-case parameter name are legal RFC 2045 spellings, but not "as browsers send
+                     \*  it": the library keeps the quotes resp. finds no boundary; the statement does not cover them)
+                     <<ct, b>> \in {<<"multipart/form-data;boundary=nospace", "nospace">>,
+                                    <<"multipart/form-data; charset=utf-8; boundary=after-param", "after-param">>}}
 
 \* ---------------------------------------------------------------- C17
 Atoms == {"a", "A", "2", "5", "F", "G", " ", "%", "&", "=", "+", "?", "#", "/", "é", "😀", "%2", "%25", "%3A", "%zz", "a b", "x=y&z", "100%", ";", ":", "~", "\"", "'"}
@@ -81,6 +97,9 @@ C17Values ==
     \cup {[kind |-> "map", pairs |-> <<<<k, "v">>>>] : k \in Strs2}
     \cup {[kind |-> "map", pairs |-> <<<<"k1", v1>>, <<"k2", v2>>>>] : v1 \in Atoms, v2 \in Atoms}
     \cup {[kind |-> "map", pairs |-> [i \in 1..n |-> <<"key" \o ToString(i), "v&=%" \o ToString(i)>>]] : n \in {0, 3, 20}}
+    \* distinct names that differ only in letter case are distinct fields
+    \cup {[kind |-> "map", pairs |-> <<<<"Name", "1">>, <<"name", "2">>, <<"NAME", "3">>>>],
+          [kind |-> "map", pairs |-> <<<<"id", "a">>, <<"x", "y">>, <<"ID", "b">>>>]}
 
 \* ---------------------------------------------------------------- C19
 \* the supported model: an object with one optional field of every kind; numbers travel as decimal / float lexemes
@@ -92,7 +111,7 @@ IntLex == {"0", "1", "-1", "127", "-128", "255", "32767", "-32768", "65535", "21
            "9223372036854775807", "-9223372036854775808", "18446744073709551615", "9007199254740993", "-9007199254740993",
            "170141183460469231731687303715884105727", "-170141183460469231731687303715884105728"}
 FloatLex == {"0.0", "-0.0", "0.1", "-0.1", "1.0", "1e-7", "1e21", "5e-324", "1.7976931348623157e308", "0.30000000000000004",
-             "123456.789", "-2.5e-3", "1e100", "3.0e0", "12345678901234567.0"}
+             "123456.789", "-2.5e-3", "1e100", "3.0e0", "12345678901234567.0", "-1e-7", "-5e-324", "-1e21", "-1e16"}
 StrVals == {"", "plain", "with space", "a,b", "{x}", "[1]", ":", "true", "null", "123", "é😀"}
 LeafV(name, n) == [name |-> name, n |-> n]
 NoLeaf == [p |-> FALSE, v |-> LeafV("", "0")]
@@ -132,15 +151,17 @@ C19Arrays ==
     UNION {{Arr(ty, <<>>), Arr(ty, <<"0">>), Arr(ty, <<"1", "2">>), Arr(ty, [k \in 1..64 |-> ToString(k)])}
            \cup {Arr(ty, <<e>>) : e \in Extremes(ty)} \cup {Arr(ty, <<"1", e, "0">>) : e \in Extremes(ty)} : ty \in IntTypes}
     \cup {Arr(ty, <<"-1">>) : ty \in {"i8", "i16", "i32", "i64", "i128"}}
-    \cup {Arr("f64", xs) : xs \in {<<>>, <<"0.0">>, <<"-0.0", "0.1">>, <<"1e21", "5e-324", "1.7976931348623157e308">>, <<"0.30000000000000004">>, <<"-2.5e-3", "1e-7">>}}
-    \cup {Arr("f32", xs) : xs \in {<<>>, <<"0.0">>, <<"0.1", "-0.1">>, <<"3.4028235e38", "1e-45">>}}
+    \cup {Arr("f64", xs) : xs \in {<<>>, <<"0.0">>, <<"-0.0", "0.1">>, <<"1e21", "5e-324", "1.7976931348623157e308">>, <<"0.30000000000000004">>, <<"-2.5e-3", "1e-7">>,
+                                  \* negative values of every magnitude class (where a writer might switch to exponent notation)
+                                  <<"-1e-7">>, <<"1.0", "-2.5e-7", "4.0">>, <<"-5e-324", "-1e21", "-1.7976931348623157e308">>, <<"-1e-5", "-1e16", "1e16">>}}
+    \cup {Arr("f32", xs) : xs \in {<<>>, <<"0.0">>, <<"0.1", "-0.1">>, <<"3.4028235e38", "1e-45">>, <<"-1e-7", "-3.4028235e38", "-1e-45">>, <<"2.5", "-2.5e-6">>}}
     \cup {Arr("string", xs) : xs \in {<<>>, <<"">>, <<"a">>, <<"a,b", "c d">>, <<"[x]", "{y}">>, <<"é😀", "z">>, [k \in 1..64 |-> "s" \o ToString(k)]}}
     \cup {Arr("bool", xs) : xs \in {<<>>, <<"true">>, <<"false", "true", "false">>}}
     \cup {Arr("null", xs) : xs \in {<<>>, <<"null">>, <<"null", "null">>}}
 
 Cases == CASE Mode = "c19" -> C19Objects \cup C19Arrays
            [] Mode = "c14" -> C14Values \cup C14Lines
-           [] Mode = "c15" -> C15Values \cup {AllStatuses} \cup C15Corrupt
+           [] Mode = "c15" -> C15Values \cup {AllStatuses} \cup C15Corrupt \cup C15StatusLines
            [] Mode = "c16" -> C16Values \cup C16Corrupt \cup C16Extract
            [] Mode = "c17" -> C17Values
 Init == case \in Cases
